@@ -16,6 +16,32 @@ import os
 import sys
 
 
+def _repair_bytestring_provider():
+    """Hypothesis 6.168's BytestringProvider.draw_integer (the decoder behind fuzz_one_input) draws
+    `bits = (max - min).bit_length()` bits and rejects until min <= value <= max WITHOUT adding min: a range such as
+    integers(8, 11) (2 bits: 0..3) can never be satisfied and every buffer ends in an overrun - st.permutations of more
+    than a few elements, integers(5, 7), ... make a whole strategy undecodable (C11: 0 valid cases in 10 000 executions).
+    The decoder is part of the fuzzing tool, not of the code under test: use offset + rejection instead."""
+    from hypothesis.internal.conjecture import providers
+
+    def draw_integer(self, min_value=None, max_value=None, *, weights=None, shrink_towards=0):
+        if min_value is None and max_value is None:
+            min_value, max_value = -(2 ** 127), 2 ** 127 - 1
+        elif min_value is None:
+            min_value = max_value - 2 ** 64
+        elif max_value is None:
+            max_value = min_value + 2 ** 64
+        if min_value == max_value:
+            return min_value
+        bits = (max_value - min_value).bit_length()
+        value = min_value + self._draw_bits(bits)
+        while value > max_value:
+            value = min_value + self._draw_bits(bits)
+        return value
+
+    providers.BytestringProvider.draw_integer = draw_integer
+
+
 def main():
     ap = argparse.ArgumentParser()
     ap.add_argument("prop")
@@ -52,6 +78,7 @@ def main():
         os.replace(tmp, a.out)
 
     from hypothesis import HealthCheck, given, settings
+    _repair_bytestring_provider()
 
     @settings(database=None, deadline=None, suppress_health_check=list(HealthCheck))
     @given(sub.strategy())
@@ -90,7 +117,18 @@ def main():
 
     flush()
     os.makedirs(a.corpus, exist_ok=True)
-    atheris.Setup([sys.argv[0], "-runs=%d" % a.runs, "-seed=%d" % (a.seed or 1), "-max_len=4096", "-len_control=0", "-timeout=600",
+    # starting corpus: besides the empty one, a few buffers of pseudo-random bytes (a pure function of --seed) long enough
+    # for the strategy to complete its draws - with short inputs only, strategies that draw a lot reject every buffer and
+    # libFuzzer never sees coverage to grow from
+    import hashlib
+    for k, size in enumerate((64, 256, 1024, 4096, 4096, 8192)):
+        buf, c = b"", 0
+        while len(buf) < size:
+            buf += hashlib.blake2b(("%d|%d|%d" % (a.seed, k, c)).encode(), digest_size=64).digest()
+            c += 1
+        with open(os.path.join(a.corpus, "seed-%d" % k), "wb") as f:
+            f.write(buf[:size])
+    atheris.Setup([sys.argv[0], "-runs=%d" % a.runs, "-seed=%d" % (a.seed or 1), "-max_len=8192", "-len_control=0", "-timeout=600",
                    "-print_final_stats=1", "-verbosity=1", a.corpus], target)
     atheris.Fuzz()
 
